@@ -193,6 +193,9 @@ type storeHistOpts struct {
 	nops     int
 	sessions int  // number of open..close sessions (C09)
 	ivf      bool // trained IVF vector template (fresh and freshly trained at every open)
+	restarts int  // the history ends with this many (close + reopen, search) pairs (C09: several sessions in a row)
+	big      int  // the history starts with this many adds of long vectors (segment streams of more than 32 KiB:
+	// the gzip reader then hands out short reads in the middle of a record)
 }
 
 var storeCaseCounter int
@@ -208,6 +211,9 @@ func runStoreHistory(r *rand.Rand, o storeHistOpts, t *Trace) *Case {
 	defer os.RemoveAll(dir)
 	cfg := storeCfg{dir: dir}
 	cfg.p = vecParams{kind: 0, dim: []int{1, 2, 3, 4}[r.Intn(4)], metric: r.Intn(3), nlist: 1, m: 1, nbits: 1}
+	if o.big > 0 {
+		cfg.p.dim = 48 + r.Intn(17)
+	}
 	if o.ivf {
 		cfg.p.kind, cfg.p.nlist = 1, 2+r.Intn(3)
 		cfg.r, cfg.ntrain = r, cfg.p.nlist+r.Intn(2*cfg.p.nlist)
@@ -218,6 +224,9 @@ func runStoreHistory(r *rand.Rand, o storeHistOpts, t *Trace) *Case {
 	}
 	// memtable limits from one document up
 	cfg.limit = []int64{1, 100, 200, 400, 1000, 1 << 30}[r.Intn(6)]
+	if o.big > 0 {
+		cfg.hv, cfg.limit = true, 1<<30 // one segment holds them all
+	}
 	cfg.cthr = 2 + r.Intn(4)
 	ser := newSegSerializer()
 	comet.VerifSetHandler(ser.handler)
@@ -266,10 +275,21 @@ func runStoreHistory(r *rand.Rand, o storeHistOpts, t *Trace) *Case {
 	failedFlushes := 0
 	for step := 0; step < o.nops; step++ {
 		x := r.Intn(100)
+		if left := o.nops - step; left <= 2*o.restarts {
+			// the tail: restart, look, restart, look ... (sessions that only read still have to keep everything)
+			if left%2 == 0 {
+				x = 70
+			} else {
+				x = 99
+			}
+		}
+		if step < o.big {
+			x = 0
+		}
 		switch {
 		case x < 32: // add
 			var vec []float32
-			if cfg.hv && r.Intn(6) != 0 {
+			if cfg.hv && (r.Intn(6) != 0 || step < o.big) {
 				vec = histVec(r, cfg.p.dim, style)
 			}
 			text := ""
@@ -278,7 +298,7 @@ func runStoreHistory(r *rand.Rand, o storeHistOpts, t *Trace) *Case {
 			}
 			var md map[string]interface{}
 			if r.Intn(3) != 0 {
-				md = metaDoc(r, false)
+				md = metaDoc(r, true) // unsupported values included: a refused add leaves nothing behind
 			}
 			raw := cloneVec(vec)
 			var toks []int
@@ -604,48 +624,72 @@ func runStoreHistory(r *rand.Rand, o storeHistOpts, t *Trace) *Case {
 					}
 				}
 			}
-			ids, _ := st.VerifSegmentIDs()
-			ser.arm(ids)
-			var res []comet.HybridSearchResult
-			var e error
-			pan := catchPanic(func() { res, e = s.Execute() })
-			ser.disarm()
-			code := errCodeStore(e)
-			if pan {
-				code = 12
-			}
-			tq := make([][]int, len(tqs))
-			for i, q := range tqs {
-				tq[i] = in.toks(q)
-			}
-			ops = append(ops, func(c *Case) {
-				c.N(4).Vec(vq).N(len(tq))
-				for _, q := range tq {
-					c.Ints(q)
+			exec := func() (int, []comet.HybridSearchResult) {
+				fs, gs, k, thr := fs, gs, k, thr // as they are at THIS execution
+				ids, _ := st.VerifSegmentIDs()
+				ser.arm(ids)
+				var res []comet.HybridSearchResult
+				var e error
+				pan := catchPanic(func() { res, e = s.Execute() })
+				ser.disarm()
+				code := errCodeStore(e)
+				if pan {
+					code = 12
 				}
-				c.N(len(fs))
-				for _, f := range fs {
-					encFilter(c, f)
+				tq := make([][]int, len(tqs))
+				for i, q := range tqs {
+					tq[i] = in.toks(q)
 				}
-				c.N(len(gs))
-				for _, g := range gs {
-					c.B(g.Logic == comet.AND).N(len(g.Filters))
-					for _, f := range g.Filters {
+				ops = append(ops, func(c *Case) {
+					c.N(4).Vec(vq).N(len(tq))
+					for _, q := range tq {
+						c.Ints(q)
+					}
+					c.N(len(fs))
+					for _, f := range fs {
 						encFilter(c, f)
 					}
+					c.N(len(gs))
+					for _, g := range gs {
+						c.B(g.Logic == comet.AND).N(len(g.Filters))
+						for _, f := range g.Filters {
+							encFilter(c, f)
+						}
+					}
+					c.N(k).F32(thr).N(0).N(cutoff).N(nprobes).N(fk).F64(1).F64(1).F64(60)
+					encLn(c, lnT)
+					c.N(code).N(len(res))
+					for _, x := range res {
+						c.U(uint64(x.ID)).F64(x.Score)
+					}
+				})
+				return code, res
+			}
+			code, res := exec()
+			if code == 0 && r.Intn(4) == 0 {
+				// the SAME builder re-configured and executed again: other (or no) filters, another k, the
+				// threshold set or lifted -- nothing of the first execution may linger
+				if cfg.hm {
+					fs, gs = nil, nil
+					switch r.Intn(3) {
+					case 0:
+						fs = []comet.Filter{rndFilter(r)}
+					case 1:
+						gs = []*comet.FilterGroup{{Logic: comet.OR, Filters: []comet.Filter{rndFilter(r), rndFilter(r)}}}
+					}
+					s = s.WithMetadata(fs...).WithMetadataGroups(gs...)
 				}
-				c.N(k).F32(thr).N(0).N(cutoff).N(nprobes).N(fk).F64(1).F64(1).F64(60)
-				encLn(c, lnT)
-				c.N(code).N(len(res))
-				for _, x := range res {
-					c.U(uint64(x.ID)).F64(x.Score)
-				}
-			})
+				k = []int{1, 2, 3, 5, 10, 50}[r.Intn(6)]
+				thr = []float32{0, 0, 1, 2.5}[r.Intn(4)]
+				s = s.WithK(k).WithThreshold(thr)
+				exec()
+				t.Stat("store.search_builder_reconfigured")
+			}
 			t.Stat("store.search")
 			if code == 0 && len(res) > 0 {
 				t.Stat("store.search_nonempty")
 			}
-			if len(ids) > 0 {
+			if ids, _ := st.VerifSegmentIDs(); len(ids) > 0 {
 				t.Stat("store.search_with_segments")
 			}
 			if r.Intn(3) == 0 {
@@ -706,6 +750,15 @@ func genC09(r *rand.Rand, t *Trace, thorough bool) {
 			runStoreHNSWDiff(r, 1+r.Intn(4), t) // the hnsw template kind, differentially against the flat one
 		}
 		o := storeHistOpts{nops: 15 + r.Intn(45), sessions: 1 + r.Intn(4), ivf: it%3 == 2}
+		if it%2 == 0 {
+			o.restarts = 2 + r.Intn(2)
+			o.sessions += o.restarts
+		}
+		if it%10 == 5 {
+			o.big = 175 + r.Intn(50)
+			o.nops = o.big + 8 + r.Intn(8)
+			o.ivf = false
+		}
 		if o.ivf {
 			t.Emit(runStoreHistory(r, o, t), "store.template.ivf")
 		} else {
